@@ -45,6 +45,11 @@ pub struct Case {
   pub mandatory: bool,
   pub auto_delimiter: bool,
   pub peers: Vec<PeerSpec>,
+  /// the application polls the ROUTER with RCVTIMEO = 0 from a second task while the peers are
+  /// still connecting (the non-blocking receive path meets connections whose identity is not
+  /// registered yet)
+  #[serde(default)]
+  pub poll: bool,
 }
 
 fn shape_strategy() -> impl Strategy<Value = Vec<u8>> + Clone {
@@ -75,8 +80,9 @@ fn case_strategy() -> impl Strategy<Value = Case> + Clone {
     any::<bool>(),
     prop::bool::weighted(0.8),
     prop::collection::vec(peer_strategy(), 1..6),
+    prop::bool::weighted(0.35),
   )
-    .prop_map(|(transport, rt, mandatory, auto_delimiter, mut peers)| {
+    .prop_map(|(transport, rt, mandatory, auto_delimiter, mut peers, poll)| {
       // REQ has no AUTO_DELIMITER switch (ROUTER always frames for it), so "the same setting on
       // both ends" only exists for DEALER peers: no REQ peers in manual mode
       if !auto_delimiter {
@@ -84,7 +90,13 @@ fn case_strategy() -> impl Strategy<Value = Case> + Clone {
           p.req = false;
         }
       }
-      Case { transport, rt, mandatory, auto_delimiter, peers }
+      if poll {
+        // the race needs messages that arrive right behind the handshake
+        for p in peers.iter_mut() {
+          p.eager = true;
+        }
+      }
+      Case { transport, rt, mandatory, auto_delimiter, peers, poll }
     })
 }
 
@@ -184,9 +196,25 @@ async fn body(c: &Case) -> L2 {
     Ok(x) => x,
     Err(e) => return L2::Inconclusive(e.to_string()),
   };
-  let (router, ep) = match stack::bound(&ctx, "ROUTER", c.transport, &[stack::i32opt(opt::RCVTIMEO, 1500), stack::i32opt(opt::SNDTIMEO, 3000)]).await {
+  let (router, ep) = match stack::bound(&ctx, "ROUTER", c.transport, &[stack::i32opt(opt::RCVTIMEO, if c.poll { 0 } else { 1500 }), stack::i32opt(opt::SNDTIMEO, 3000)]).await {
     Ok(x) => x,
     Err(e) => return L2::Inconclusive(e),
+  };
+  // poll mode: a second task spins on recv_multipart() from now on
+  let polled: std::sync::Arc<std::sync::Mutex<std::collections::VecDeque<Vec<rzmq::Msg>>>> = Default::default();
+  let stop_poll = std::sync::Arc::new(std::sync::atomic::AtomicBool::new(false));
+  let poller = if c.poll {
+    let (r2, q, stop) = (router.clone(), polled.clone(), stop_poll.clone());
+    Some(tokio::spawn(async move {
+      while !stop.load(std::sync::atomic::Ordering::Relaxed) {
+        match r2.recv_multipart().await {
+          Ok(f) => q.lock().unwrap().push_back(f.into_iter().collect()),
+          Err(_) => tokio::task::yield_now().await,
+        }
+      }
+    }))
+  } else {
+    None
   };
   if c.mandatory {
     let _ = router.set_option_raw(opt::ROUTER_MANDATORY, &1i32.to_ne_bytes()).await;
@@ -234,9 +262,23 @@ async fn body(c: &Case) -> L2 {
   let mut got_count = 0;
   let total = expected_from.len();
   while got_count < total {
-    let frames = match router.recv_multipart().await {
-      Ok(f) => f,
-      Err(e) => return v("message_lost", format!("ROUTER received {} of {} messages: {}", got_count, total, e)),
+    let frames: Vec<rzmq::Msg> = if c.poll {
+      let deadline = tokio::time::Instant::now() + Duration::from_millis(2500);
+      loop {
+        if let Some(f) = polled.lock().unwrap().pop_front() {
+          break f;
+        }
+        if tokio::time::Instant::now() >= deadline {
+          stop_poll.store(true, std::sync::atomic::Ordering::Relaxed);
+          return v("message_lost", format!("polling ROUTER received {} of {} messages", got_count, total));
+        }
+        tokio::time::sleep(Duration::from_millis(2)).await;
+      }
+    } else {
+      match router.recv_multipart().await {
+        Ok(f) => f.into_iter().collect(),
+        Err(e) => return v("message_lost", format!("ROUTER received {} of {} messages: {}", got_count, total, e)),
+      }
     };
     let bodies: Vec<Vec<u8>> = frames.iter().map(|m| m.data().unwrap_or(&[]).to_vec()).collect();
     if bodies.len() < 2 {
@@ -282,6 +324,12 @@ async fn body(c: &Case) -> L2 {
     }
     reported.entry(label).or_default().push(identity);
     got_count += 1;
+  }
+  stop_poll.store(true, std::sync::atomic::Ordering::Relaxed);
+  if let Some(h) = poller {
+    let _ = h.await;
+    // the rest of the case uses blocking receives again
+    let _ = router.set_option_raw(opt::RCVTIMEO, &1500i32.to_ne_bytes()).await;
   }
   for (label, idl) in &reported {
     if idl.windows(2).any(|w| w[0] != w[1]) {
@@ -469,8 +517,98 @@ impl WithSig for L2 {
   }
 }
 
+
+/// A raw DEALER announces an identity and writes READY together with its first message in one
+/// write, round after round, while the application receives with a generated RCVTIMEO (0 =
+/// polling, small, or blocking): the first message must already come out under the announced
+/// identity, never under the connection's placeholder.
+#[derive(Clone, Debug, Serialize, Deserialize)]
+pub struct EarlyCase {
+  pub transport: Transport,
+  pub rt: Rt,
+  pub rcvtimeo: i32,
+  pub rounds: u8,
+  pub id_len: u8,
+}
+
+async fn early_body(c: &EarlyCase) -> L2 {
+  use crate::wire;
+  let ctx = match rzmq::Context::new() {
+    Ok(x) => x,
+    Err(e) => return L2::Inconclusive(e.to_string()),
+  };
+  let (router, ep) = match stack::bound(&ctx, "ROUTER", c.transport, &[stack::i32opt(opt::RCVTIMEO, c.rcvtimeo)]).await {
+    Ok(x) => x,
+    Err(e) => return L2::Inconclusive(e),
+  };
+  let mut wrong: Vec<(u8, Vec<u8>)> = Vec::new();
+  let mut decided = 0u32;
+  for round in 0..c.rounds {
+    let mut id = format!("peer-{:03}-", round).into_bytes();
+    while id.len() < c.id_len.max(9) as usize {
+      id.push(b'x');
+    }
+    let mut raw = match stack::raw_connect(&ep).await {
+      Ok(r) => r,
+      Err(e) => return L2::Inconclusive(e.to_string()),
+    };
+    if raw.write_all(&wire::greeting_v3(1, "NULL", false)).await.is_err() {
+      continue;
+    }
+    let (g, _) = raw.read_at_least(64, Duration::from_secs(3)).await;
+    if g.len() < 64 {
+      return L2::Inconclusive("no greeting from the ROUTER".into());
+    }
+    let mut burst = wire::encode_frames(&[wire::ready("DEALER", Some(&id))]);
+    let payload = format!("hello-{:03}", round).into_bytes();
+    burst.extend(wire::encode_frames(&[wire::RefFrame::data(vec![], true), wire::RefFrame::data(payload.clone(), false)]));
+    if raw.write_all(&burst).await.is_err() {
+      continue;
+    }
+    // receive the way the application would
+    let deadline = tokio::time::Instant::now() + Duration::from_millis(2000);
+    let got = loop {
+      match tokio::time::timeout(Duration::from_millis(2500), router.recv_multipart()).await {
+        Ok(Ok(f)) => break Some(f),
+        Ok(Err(_)) => {
+          if tokio::time::Instant::now() >= deadline {
+            break None;
+          }
+          tokio::task::yield_now().await;
+        }
+        Err(_) => break None,
+      }
+    };
+    if let Some(f) = got {
+      let bodies: Vec<Vec<u8>> = f.iter().map(|m| m.data().unwrap_or(&[]).to_vec()).collect();
+      if bodies.last() == Some(&payload) {
+        decided += 1;
+        if bodies.first() != Some(&id) {
+          wrong.push((round, bodies.first().cloned().unwrap_or_default()));
+        }
+      }
+    }
+    drop(raw);
+  }
+  let verdict = if let Some((round, rep)) = wrong.first() {
+    L2::Violation(
+      Violation::new("wrong_identity_reported", format!("round {}: a peer that announced a {}-byte identity in READY had its first message (same write as READY) reported under {:?} ({} of {} rounds; RCVTIMEO {})", round, c.id_len.max(9), String::from_utf8_lossy(rep), wrong.len(), decided, c.rcvtimeo))
+        .with("layer", "stack")
+        .with("transport", c.transport.name())
+        .with("auto_delimiter", true),
+    )
+  } else if decided == 0 {
+    L2::Inconclusive("no round delivered its message".into())
+  } else {
+    L2::Ok
+  };
+  let _ = router.close().await;
+  stack::term(&ctx).await;
+  verdict
+}
+
 pub fn run(run: &mut Run) {
-  run.rule = "cases = bound ROUTER (ROUTER_MANDATORY on/off, AUTO_DELIMITER on/off consistently on both ends) over tcp/ipc/inproc with 1..5 peers (DEALER, 30% REQ) whose routing ids are absent / 1 byte / 255 bytes / random / colliding with peer 0; each peer sends 1..3 payloads of 1..5 frames with empty frames in any position, the first one straight after connect() or after HandshakeSucceeded; ROUTER answers every reported identity; unknown identity; 20% of peers reconnect under the same identity. Non-trivial = at least two peers and (an empty frame in a payload, or a first message before the identity event, or a reconnect/collision). Distinct = hash of the case".into();
+  run.rule = "cases = bound ROUTER (ROUTER_MANDATORY on/off, AUTO_DELIMITER on/off consistently on both ends) over tcp/ipc/inproc with 1..5 peers (DEALER, 30% REQ) whose routing ids are absent / 1 byte / 255 bytes / random / colliding with peer 0; each peer sends 1..3 payloads of 1..5 frames with empty frames in any position, the first one straight after connect() or after HandshakeSucceeded; ROUTER answers every reported identity; unknown identity; 20% of peers reconnect under the same identity. 35% of the cases poll the ROUTER with RCVTIMEO 0 from a second task while the peers connect; first_message_with_ready: 8..29 rounds of a raw DEALER that announces an identity and writes READY and its first message in one write while the ROUTER receives with RCVTIMEO in {0,1,20,-1}. Non-trivial = at least two peers and (an empty frame in a payload, or a first message before the identity event, or a reconnect/collision). Distinct = hash of the case".into();
   run.assumptions = vec![
     "REQ sends single-frame requests; AUTO_DELIMITER is set the same way on both ends; with colliding identities only 'delivered to a peer that never announced that identity' counts".into(),
     "ROUTER-ROUTER peers are not generated".into(),
@@ -489,8 +627,22 @@ pub fn run(run: &mut Run) {
     rec.label_if(empties, "empty_frames_in_payload");
     rec.label_if(c.peers.iter().any(|p| p.req), "req_peer");
     rec.label_if(!c.auto_delimiter, "manual_delimiter");
+    rec.label_if(c.poll, "router_polled_with_rcvtimeo_0");
     let r = run_l2(c.rt, Duration::from_secs(90), body(c));
     l2_result(run, "envelopes", r)
+  });
+  let early = (prop::sample::select(vec![Transport::Tcp, Transport::Ipc]), prop::sample::select(vec![Rt::Current, Rt::Multi(2), Rt::Multi(4)]), prop::sample::select(vec![0i32, 0, 1, 20, -1]), 8u8..30, prop::sample::select(vec![9u8, 40, 255]))
+    .prop_map(|(transport, rt, rcvtimeo, rounds, id_len)| EarlyCase { transport, rt, rcvtimeo, rounds, id_len });
+  run.prop("first_message_with_ready", (n / 8).max(6), 6, 4, early, |c, rec: &mut CaseRec| {
+    rec.nontrivial = true;
+    rec.label(c.transport.name());
+    rec.label(match c.rcvtimeo {
+      0 => "polling_rcvtimeo_0",
+      -1 => "blocking",
+      _ => "short_rcvtimeo",
+    });
+    let r = run_l2(c.rt, Duration::from_secs(90), early_body(c));
+    l2_result(run, "first_message_with_ready", r)
   });
   if run.undecided("envelopes") * 10 > n as u64 * 2 {
     run.inconclusive(format!("{} of {} cases could not be decided", run.undecided("envelopes"), n));
